@@ -241,12 +241,12 @@ impl<'a> CompilerState<'a> {
 
     fn collect_labels(
         s: &StatementLoc<'a>,
-        labels: &mut Vec<String>,
+        labels: &mut Vec<(String, usize)>,
         gotos: &mut Vec<(&'a str, usize)>,
         asm_text: &mut String,
     ) {
         if let Some(l) = &s.label {
-            labels.push(l.clone());
+            labels.push((l.clone(), s.pos));
         }
         match &s.statement {
             Statement::Block(v) => {
@@ -2048,6 +2048,26 @@ impl<'a> CompilerState<'a> {
                     let mut gotos = Vec::new();
                     let mut asm_text = String::new();
                     Self::collect_labels(&code, &mut labels, &mut gotos, &mut asm_text);
+                    // A label is written as a local label of the function: it must be unique, and
+                    // must not be one of the names the code generator makes up itself
+                    const GENERATED: [&str; 20] = [
+                        "dowhilecondition", "dowhileend", "dowhile", "else", "endofinline", "endof", "fixup", "fix",
+                        "forend", "forupdate", "for", "ifend", "ifhere", "ifneg", "ifstart", "switchend",
+                        "switchnextcase", "switchnextstatement", "whileend", "while",
+                    ];
+                    for (i, (l, pos)) in labels.iter().enumerate() {
+                        if labels[..i].iter().any(|x| x.0 == *l) {
+                            return Err(self.syntax_error(&format!("Label {} already defined", l), *pos));
+                        }
+                        if GENERATED.iter().any(|g| {
+                            l.strip_prefix(g).is_some_and(|rest| {
+                                let rest = rest.split("inline").next().unwrap_or("");
+                                rest.chars().all(|c| c.is_ascii_digit())
+                            })
+                        }) {
+                            return Err(self.syntax_error(&format!("Label {} is reserved for the compiler", l), *pos));
+                        }
+                    }
                     for (target, pos) in gotos {
                         // (an assembler label is a name at the very start of a line)
                         let local_label = format!(".{}", target);
@@ -2056,7 +2076,7 @@ impl<'a> CompilerState<'a> {
                                 !rest.starts_with(|c: char| c.is_ascii_alphanumeric() || c == '_')
                             })
                         });
-                        if !labels.iter().any(|l| l == target) && !in_asm {
+                        if !labels.iter().any(|l| l.0 == target) && !in_asm {
                             return Err(self.syntax_error(&format!("Undefined label {}", target), pos));
                         }
                     }
